@@ -33,7 +33,7 @@ def make_map(rng, i):
     limit = 5 * 10**5 * 10**6
     if style == "realistic":
         res = gen.gen_resolution(rng, "realistic")
-        return res, gen.gen_tempos(rng, "realistic", res, rng.choice([2, 5, 12]), 1200 * 10**6), style
+        return res, gen.gen_tempos(rng, "realistic", res, rng.choice([2, 5, 12, 12, 70, 400]), 3000 * 10**6), style
     if style == "hostile":
         res = gen.gen_resolution(rng, "hostile")
         return res, gen.gen_tempos(rng, "hostile", res, rng.choice([2, 9, 40]), limit), style
@@ -50,7 +50,7 @@ def make_map(rng, i):
             t += rng.choice([1, 2, 3, 50])
         return res, tempos, style
     res = rng.choice([1, 7, 192, 480, 10000])
-    k = rng.choice([4, 10, 40])
+    k = rng.choice([4, 10, 40, 40, 300])
     t, tempos, cum = 0, [], 0
     for j in range(k):
         if style == "alternating":
